@@ -103,6 +103,55 @@ func c07(w []string) string {
 				}
 			}
 			return fmt.Sprintf("ok %d %d %s", pd, digestShards(in), exact)
+		case "rt2":
+			// the SAME coder object is used for two reconstructions with the same missing data shards but
+			// different available parity shards (a coder must not carry state from one call to the next)
+			kind := w[1]
+			d, p, g, words := atoi(w[2]), atoi(w[3]), atoi(w[4]), atoi(w[5])
+			seed := uint64(atoi(w[6]))
+			kd := w[7]
+			coder, err := newCoder(kind, d, p, g)
+			if err != nil {
+				return "err new"
+			}
+			orig := make([][]byte, d)
+			for i := range orig {
+				orig[i] = genBytes("rand", seed+uint64(i), 2*words)
+			}
+			parity := coder.GenerateParity(orig)
+			res := ""
+			for _, kp := range w[8:] {
+				in := make([][]byte, d)
+				for i := range in {
+					if kd[i] == '1' {
+						in[i] = append([]byte(nil), orig[i]...)
+					}
+				}
+				par := make([][]byte, p)
+				for i := range par {
+					if kp[i] == '1' {
+						par[i] = append([]byte(nil), parity[i]...)
+					}
+				}
+				err = coder.ReconstructData(in, par)
+				switch {
+				case err == nil:
+					exact := "exact"
+					for i := range in {
+						if !sameBytes(in[i], orig[i]) {
+							exact = "WRONG"
+						}
+					}
+					res += " ok-" + exact
+				default:
+					if _, ok := err.(rsec16.NotEnoughParityShardsError); ok {
+						res += " notenough"
+					} else {
+						res += " other"
+					}
+				}
+			}
+			return "rt2" + res
 		}
 		panic("c07: bad command")
 	})
